@@ -41,6 +41,11 @@ type c17Case struct {
 	Cut     int       `json:"cut"`   // -1: whole stream; else the stream is truncated to this many bytes
 	Junk    kit.Hex   `json:"junk"`  // when non-empty the case is "arbitrary bytes" instead
 	Trail   kit.Hex   `json:"trail"` // bytes (not starting a packet) appended after the last packet; must come back as remainder
+	// Reuse: one Packet value decodes the whole stream, the way a connection's read loop does; Retry[i] > 0: before
+	// packet i is decoded the same value first sees only its first Retry[i] bytes (data still arriving) and must
+	// answer "too short" - afterwards the complete packet decodes as if nothing had happened
+	Reuse bool  `json:"one_packet_value_for_the_stream,omitempty"`
+	Retry []int `json:"first_attempt_sees_only_this_many_bytes,omitempty"`
 }
 
 func genRTP(t *rapid.T) rtpCase {
@@ -99,10 +104,22 @@ func genC17(t *rapid.T) c17Case {
 	}
 	n := rapid.IntRange(1, 8).Draw(t, "n")
 	total := 0
+	c.Reuse = rapid.Bool().Draw(t, "reuse")
 	for i := 0; i < n; i++ {
 		p := genRTP(t)
 		c.Packets = append(c.Packets, p)
-		total += p.ref().HeaderLen() + len(p.Payload)
+		size := p.ref().HeaderLen() + len(p.Payload)
+		total += size
+		retry := 0
+		if c.Reuse && rapid.IntRange(0, 2).Draw(t, "retry") == 0 {
+			if retry = rapid.IntRange(1, size-1).Draw(t, "retry_at"); rapid.Bool().Draw(t, "retry_in_header") {
+				retry = rapid.IntRange(16, max(16, p.ref().HeaderLen()-1)).Draw(t, "retry_hdr")
+			}
+			if retry >= size {
+				retry = size - 1
+			}
+		}
+		c.Retry = append(c.Retry, retry)
 	}
 	if kind <= 3 {
 		c.Cut = rapid.IntRange(0, total-1).Draw(t, "cut")
@@ -162,10 +179,26 @@ func checkC17(c c17Case, _ *kit.Collector) kit.Result {
 	rest := data
 	consumed := 0
 	hdrLens := map[int]bool{}
+	shared := jt1078.NewPacket()
+	if c.Reuse {
+		res.Labels = append(res.Labels, "one_packet_value_for_the_stream")
+	}
 	for i, pc := range c.Packets {
 		want := pc.ref()
 		hdrLens[want.HeaderLen()] = true
 		p := jt1078.NewPacket()
+		if c.Reuse {
+			p = shared
+			if i < len(c.Retry) && c.Retry[i] > 0 && c.Retry[i] < len(rest) && ends[i] <= len(data) {
+				part := make([]byte, c.Retry[i])
+				copy(part, rest)
+				if _, e := p.Decode(part); !errors.Is(e, jt1078.ErrHeaderLength2Short) && !errors.Is(e, jt1078.ErrBodyLength2Short) {
+					res.Err = kit.Fail("packet %d (type %d): its first %d of %d bytes alone gave err=%v, want a too-short error", i, want.DataType, c.Retry[i], want.HeaderLen()+len(want.Payload), e)
+					return res
+				}
+				res.Labels = append(res.Labels, "retry_after_too_short")
+			}
+		}
 		remain, err := p.Decode(rest)
 		if ends[i] > len(data) { // this packet is truncated
 			start := 0
